@@ -1,1 +1,2 @@
 pub mod frames;
+pub mod strat;
